@@ -1,6 +1,7 @@
 package checks
 
 import (
+	"context"
 	"fmt"
 	"sort"
 	"strings"
@@ -44,6 +45,9 @@ type c18Case struct {
 	Late      *c18Setting
 	FaultRead int // 0 = none; n = the n-th get/list of the setting controller in the third phase fails
 	FaultKind sim.FaultKind
+	// Terminating: settings that are being deleted when the pods are created but are held by a finalizer (foreground
+	// deletion, a GitOps finalizer): they still exist, keep their verdict and apply like any other setting
+	Terminating []int
 }
 
 func (k c18Case) String() string {
@@ -55,7 +59,7 @@ func (k c18Case) String() string {
 	if k.Late != nil {
 		late = fmt.Sprintf(" lateArrival=%s/%s{sel=%q ref=%q} failingRead=#%d(%s)", k.Late.NS, k.Late.Name, k.Late.Selector, k.Late.Ref, k.FaultRead, k.FaultKind)
 	}
-	return fmt.Sprintf("settings=[%s] nodes=%v order=%v listReversed=%v removedAfterwards=%v notYetReconciled=%v%s", strings.Join(s, " "), k.Nodes, k.Order, k.ListRev, k.Remove, k.Pending, late)
+	return fmt.Sprintf("settings=[%s] nodes=%v order=%v listReversed=%v removedAfterwards=%v notYetReconciled=%v terminatingUnderAFinalizer=%v%s", strings.Join(s, " "), k.Nodes, k.Order, k.ListRev, k.Remove, k.Pending, k.Terminating, late)
 }
 
 // c18Bad: selectors that cannot be converted (In without values, an unknown operator, an illegal value).
@@ -131,7 +135,14 @@ func c18Draw(rt *rapid.T) c18Case {
 			}
 		}
 	}
-	if len(k.Remove) == 0 && len(k.Pending) == 0 && rapid.Bool().Draw(rt, "lateArrival") {
+	if len(k.Remove) == 0 && len(k.Pending) == 0 && rapid.IntRange(0, 3).Draw(rt, "someTerminating") == 0 {
+		for i := 0; i < n; i++ {
+			if rapid.IntRange(0, 1).Draw(rt, fmt.Sprintf("s%d-terminating", i)) == 0 {
+				k.Terminating = append(k.Terminating, i)
+			}
+		}
+	}
+	if len(k.Remove) == 0 && len(k.Pending) == 0 && len(k.Terminating) == 0 && rapid.Bool().Draw(rt, "lateArrival") {
 		k.Late = &c18Setting{NS: "ns1", Name: "set-late", Selector: rapid.SampledFrom(c18Selectors).Draw(rt, "late-sel"), Ref: rapid.SampledFrom([]string{"foo", "foo", "foo", "bar"}).Draw(rt, "late-ref"), Res: "requests"}
 		if rapid.Bool().Draw(rt, "late-failing-read") {
 			k.FaultRead = rapid.IntRange(1, 3*(n+1)).Draw(rt, "late-failing-read-index")
@@ -321,6 +332,10 @@ func runC18(k c18Case) (vs []mon.V, err error) {
 			if writes == 0 && round > 0 {
 				break
 			}
+			if round == 5 {
+				add("C18/pods/not-settling"+phase, fmt.Sprintf("after six syncs of the replica set (kubelet progress in between) it still creates or deletes pods: %d pod writes in the last one", writes))
+				return true
+			}
 		}
 		for _, pod := range c.Pods() {
 			if pod.Namespace != "ns1" || pod.Labels[oracle.LabelEDSName] != "foo" || pod.DeletionTimestamp != nil {
@@ -334,6 +349,12 @@ func runC18(k c18Case) (vs []mon.V, err error) {
 			if name == "" {
 				if rr := pod.Spec.Containers[0].Resources; rr.Requests != nil || rr.Limits != nil {
 					add("C18/pods/resources-without-setting-label"+phase, fmt.Sprintf("pod on %s has setting resources %v but no setting label", oracle.NodeOf(pod), rr))
+				}
+				// a valid setting of this ExtendedDaemonSet that matches the node must have been applied
+				for i := range k.Settings {
+					if st := k.Settings[i]; st.NS == "ns1" && st.Ref == "foo" && isValid(st) && matches(st, nodeLabels) {
+						add("C18/pods/valid-setting-not-applied"+phase, fmt.Sprintf("pod on %s (labels %v) carries no setting although the valid setting %s selects the node", oracle.NodeOf(pod), nodeLabels, st.Name))
+					}
 				}
 				continue
 			}
@@ -358,6 +379,15 @@ func runC18(k c18Case) (vs []mon.V, err error) {
 	}
 	if judge() {
 		return vs, nil
+	}
+	for _, i := range k.Terminating {
+		if i < len(k.Settings) {
+			st := k.Settings[i]
+			c.MutateSetting(st.NS, st.Name, func(x *edsv1.ExtendedDaemonsetSetting) { x.Finalizers = append(x.Finalizers, "verif/keep") })
+			if o := c.Setting(st.NS, st.Name); o != nil {
+				_ = c.Env().Delete(context.Background(), o)
+			}
+		}
 	}
 	if len(vs) == 0 && syncPods("") {
 		return vs, nil
@@ -472,7 +502,7 @@ func runC18(k c18Case) (vs []mon.V, err error) {
 }
 
 func TestC18Settings(t *testing.T) {
-	rec := evid.New("TestC18Settings", "C18", "population of 1-4 settings in one or two namespaces (creation times equal or different, selectors by labels or expressions incl. an unusable one, reference present/empty/absent/other EDS) x 0-4 labelled nodes x a reconcile order, every setting reconciled twice in that order, optionally some settings are left unreconciled (empty status: they must not influence pods), then optionally some settings are deleted and the others reconciled twice again (the verdict must follow the new population), or a further, newer setting arrives after the verdicts stand, is reconciled, and every setting is reconciled once more - in this phase a reconcile is repeated only after an error or a write to its own object (as the work queue does) and one get/list of the setting controller may fail (generic error or ServerTimeout); oracle: malformed => error, overlapping pairs never both valid, well-formed non-overlapping => valid, invalid overlapping => conflict error; then a replica-set sync creates pods whose setting label must name a valid, matching setting of that EDS; non-trivial = two settings overlap on a node, a creation-time tie, or a malformed setting; distinct by case rendering")
+	rec := evid.New("TestC18Settings", "C18", "population of 1-4 settings in one or two namespaces (creation times equal or different, selectors by labels or expressions incl. an unusable one, reference present/empty/absent/other EDS) x 0-4 labelled nodes x a reconcile order, every setting reconciled twice in that order, optionally some settings are left unreconciled (empty status: they must not influence pods) or are being deleted under a finalizer when the pods are created (they still exist and apply), then optionally some settings are deleted and the others reconciled twice again (the verdict must follow the new population), or a further, newer setting arrives after the verdicts stand, is reconciled, and every setting is reconciled once more - in this phase a reconcile is repeated only after an error or a write to its own object (as the work queue does) and one get/list of the setting controller may fail (generic error or ServerTimeout); oracle: malformed => error, overlapping pairs never both valid, well-formed non-overlapping => valid, invalid overlapping => conflict error; then a replica-set sync creates pods whose setting label must name a valid, matching setting of that EDS; non-trivial = two settings overlap on a node, a creation-time tie, or a malformed setting; distinct by case rendering")
 	t.Cleanup(func() {
 		if !t.Failed() {
 			rec.Done()
